@@ -106,9 +106,10 @@ def pretty_timezone(tz, ctx):
     if tz == timezone.utc:
         return identifier('datetime.timezone.utc')
 
-    if tz._name is None:
-        return pretty_call_alt(ctx, timezone, args=(tz._offset, ))
-    return pretty_call_alt(ctx, timezone, args=(tz._offset, tz._name))
+    # (offset, ) or (offset, name): the public pickling protocol of
+    # timezone. The private _offset/_name attributes only exist in the
+    # pure Python implementation of datetime.
+    return pretty_call_alt(ctx, timezone, args=tz.__getinitargs__())
 
 
 def pretty_pytz_timezone(tz, ctx):
